@@ -21,7 +21,7 @@ PY = os.environ.get("SIMKIT_PYTHON", "/venv/bin/python")
 # configs: list of (name, env overrides, share of sessions)
 WORLDS = {
     "cg": ("C12", 24000, 1600000, [("default", {}, 1.0)]),
-    "pg": ("C13", 1600, 100000, [("default", {}, 1.0)]),
+    "pg": ("C13", 4800, 300000, [("default", {}, 0.99), ("history", {}, 0.01, {"fresh_per_session": True})]),
     "lls": ("C14", 640, 40000, [("default", {}, 1.0)]),
     "stop": ("C15", 3200, 300000, [("default", {}, 1.0)]),
     "rng": (
@@ -88,53 +88,79 @@ def load_known(prop):
 
 def run_workers(world, tier, configs, total, base_seed, nworkers, root, wall_cap,
                 digests=False, hashseed="0", no_shrink=False):
-    """Returns (list of per-worker aggregate dicts, harness error strings)."""
+    """Returns (list of per-worker aggregate dicts, harness error strings).
+
+    Seeds are global: session i of config c uses seed cfg_start + i; each worker
+    takes a stride, so results do not depend on the worker count. A config with
+    option fresh_per_session runs every session in its own fresh interpreter
+    (the process history is then part of the plan)."""
     tmpd = tempfile.mkdtemp(prefix="simkit_", dir=os.path.join(HERE, "out"))
-    procs = []
-    # seeds are global: session i of config c uses seed base + i; each worker
-    # takes a stride, so results do not depend on the worker count.
+    jobs = []
     cfg_start = base_seed
-    for cname, cenv, share in configs:
+    for cfg in configs:
+        cname, cenv, share = cfg[0], cfg[1], cfg[2]
+        opts = cfg[3] if len(cfg) > 3 else {}
         n = max(1, int(round(total * share)))
-        nw = max(1, min(nworkers, int(round(nworkers * share))) if len(configs) > 1 else nworkers)
-        nw = min(nw, n)
+        if opts.get("fresh_per_session"):
+            nw = n
+        else:
+            nw = max(1, min(nworkers, int(round(nworkers * share))) if len(configs) > 1 else nworkers)
+            nw = min(nw, n)
         env = worker_env(root, cenv, hashseed)
         env["SIMKIT_WALL_CAP"] = str(wall_cap)
         for w in range(nw):
             out = os.path.join(tmpd, "%s_%s_%d.json" % (world, cname, w))
-            log = open(out + ".log", "w")
             cmd = [PY, "-m", "simkit.worker", "run", world, tier, cname,
                    str(cfg_start), str(n), str(nw), str(w), out]
             if digests:
                 cmd.append("--digests")
             if no_shrink:
                 cmd.append("--no-shrink")
-            p = subprocess.Popen(cmd, cwd=HERE, env=env, stdout=log, stderr=subprocess.STDOUT)
-            procs.append((p, out, log, cname, w))
+            jobs.append({"cmd": cmd, "env": env, "out": out, "name": "%s/%d" % (cname, w)})
         cfg_start += n
     errors = []
-    deadline = time.time() + wall_cap + 60
     results = []
-    for p, out, log, cname, w in procs:
-        try:
-            rc = p.wait(timeout=max(1.0, deadline - time.time()))
-        except subprocess.TimeoutExpired:
-            p.kill()
-            p.wait()
-            rc = -9
-            errors.append("worker %s/%d exceeded the wall cap" % (cname, w))
-        log.close()
+    deadline = time.time() + wall_cap + 60
+    pending = list(jobs)
+    running = []
+
+    def finish(job, rc):
+        job["log"].close()
         if rc != 0:
             try:
-                tail = open(out + ".log").read()[-1500:]
+                tail = open(job["out"] + ".log").read()[-1500:]
             except OSError:
                 tail = ""
-            errors.append("worker %s/%d exit %s: %s" % (cname, w, rc, tail))
-            continue
-        with open(out) as f:
+            errors.append("worker %s exit %s: %s" % (job["name"], rc, tail))
+            return
+        with open(job["out"]) as f:
             results.append(json.load(f))
-    for p, out, log, cname, w in procs:
-        for f in (out, out + ".log"):
+
+    while pending or running:
+        while pending and len(running) < nworkers:
+            job = pending.pop(0)
+            job["log"] = open(job["out"] + ".log", "w")
+            job["p"] = subprocess.Popen(job["cmd"], cwd=HERE, env=job["env"], stdout=job["log"],
+                                        stderr=subprocess.STDOUT)
+            running.append(job)
+        still = []
+        for job in running:
+            rc = job["p"].poll()
+            if rc is None:
+                if time.time() > deadline:
+                    job["p"].kill()
+                    job["p"].wait()
+                    job["log"].close()
+                    errors.append("worker %s exceeded the wall cap" % job["name"])
+                else:
+                    still.append(job)
+            else:
+                finish(job, rc)
+        running = still
+        if running:
+            time.sleep(0.02)
+    for job in jobs:
+        for f in (job["out"], job["out"] + ".log"):
             try:
                 os.remove(f)
             except OSError:
@@ -143,6 +169,7 @@ def run_workers(world, tier, configs, total, base_seed, nworkers, root, wall_cap
         os.rmdir(tmpd)
     except OSError:
         pass
+    results.sort(key=lambda r: (r["config"], r.get("offset", 0)))
     return results, errors
 
 
